@@ -288,6 +288,45 @@ pub fn exec(prop: &str, case: &Case) -> Outcome {
             d.u64(p.opened as u64);
             d.u64(p.verify_ok.map(|x| x as u64 + 1).unwrap_or(0));
             let mut tags = vec![("restart.reopened", 1)];
+            for m in &cc.muts {
+                tags.push((
+                    match m {
+                        crate::restart::Mutation::Subst { .. } => "corrupt.byte_substitution",
+                        crate::restart::Mutation::Burst { .. } => "corrupt.burst_2_to_4_bytes",
+                        crate::restart::Mutation::Truncate { .. } => "corrupt.truncation",
+                        crate::restart::Mutation::Tail { .. } => "corrupt.garbage_footer",
+                        crate::restart::Mutation::Version { .. } => "corrupt.version_field",
+                        crate::restart::Mutation::FixChecksum => "corrupt.checksum_recomputed_over_garbage",
+                    },
+                    1,
+                ));
+            }
+            match &cc.base {
+                Base::Raw(b) => {
+                    tags.push(("corrupt.arbitrary_bytes", 1));
+                    if b.len() < 36 {
+                        tags.push(("probe.input_shorter_than_36_bytes", 1));
+                    }
+                }
+                Base::Survivor(bc) => {
+                    if let Some((_, torn)) = bc.plan.crash {
+                        tags.push(("sink.crash", 1));
+                        if torn > 0 {
+                            tags.push(("sink.crash_with_torn_write", 1));
+                        }
+                        if bc.bufcap.is_some() {
+                            tags.push(("sink.crash_behind_bufwriter_buffer_lost", 1));
+                        }
+                        if bytes.len() < 16 {
+                            tags.push(("probe.crash_inside_header", 1));
+                        }
+                    }
+                    if !bc.plan.flips.is_empty() {
+                        tags.push(("sink.inflight_flip", 1));
+                    }
+                }
+                Base::Build(_) => {}
+            }
             if p.opened {
                 tags.push(("restart.open_ok", 1));
             }
@@ -342,8 +381,8 @@ pub fn exec(prop: &str, case: &Case) -> Outcome {
                 detail: serde_json::Value::Null,
             }
         }
-        ("C01", Case::MemBuild(mc)) => {
-            let run = crate::mem::run_big_roundtrip(mc);
+        ("C01", Case::MemBuild(mc)) | ("C08", Case::MemBuild(mc)) => {
+            let run = crate::mem::run_big_roundtrip(prop, mc);
             let tags = vec![
                 ("sink.short_write", run.short),
                 ("sink.interrupted", run.intr),
@@ -378,7 +417,7 @@ pub fn exec(prop: &str, case: &Case) -> Outcome {
                 steps: mc.fam.n,
                 detail: serde_json::json!({
                     "keys": mc.fam.n, "map": mc.map, "cache_geometry": mc.registry.map(|r| vec![r.0, r.1]),
-                    "fanout": mc.fam.fanout, "key_length": mc.fam.keylen, "prefix_pairs": mc.fam.pairs,
+                    "fanout": mc.fam.fanout, "key_length": mc.fam.keylen, "prefix_pairs": mc.fam.pairs, "leaf_fan": mc.fam.leaf_fan, "decreasing_values": mc.fam.decreasing,
                     "bound_bytes": run.bound, "live_after_new": run.after_new,
                     "max_live_at_checkpoints": run.max_live,
                     "live_at_first_tenth": run.live_at_tenth, "live_at_end": run.live_at_end,
